@@ -110,8 +110,13 @@ size_t add_new_groups(econf_file *dest_kf, struct file_entry **fe,
   size_t added_keys = merge_length;
   bool new_key;
   if (uf && ef) {
+    // The leading group-less entries of ef have been handled by
+    // insert_nogroup or merge_existing_groups.
+    bool leading = true;
     for (size_t i = 0; i < ef->length; i++) {
-      if (!strcmp(ef->file_entry[i].group, KEY_FILE_NULL_VALUE))
+      if (strcmp(ef->file_entry[i].group, KEY_FILE_NULL_VALUE))
+	leading = false;
+      else if (leading)
 	continue;
       new_key = true;
       for (size_t j = 0; j < uf->length; j++) {
